@@ -23,7 +23,7 @@ RULE = ('Hypothesis RuleBasedStateMachine over one long-lived interpreter '
         'a pool of 3-5 generated decks (Boolean level-0 decks, universe '
         'trees, rectangular and hexagonal lattices, duplicate / unused / '
         'flagged surfaces, multi-particle importance decks, material decks, '
-        'LIKE decks) and 4 option sets; rules: convert(deck, options) '
+        'LIKE decks) and 5 option sets (one of them --cache); rules: convert(deck, options) '
         'in-process, convert_failing(fault-injected deck) which must raise, '
         'reconvert(an earlier pair), every_ordered_pair(options) which '
         'converts b right after a for all ordered pairs of pool decks, '
@@ -45,7 +45,11 @@ ASSUMPTIONS = [
 
 OPTION_SETS = [[], ['--skip-deduplication'],
                ['--always-inline-filling', '--always-inline-filled'],
-               ['--max-inline-score', '-1']]
+               ['--max-inline-score', '-1'],
+               # the disk cache (written next to the input by the first run,
+               # read by later ones) must not change what is written
+               ['--cache']]
+CACHE_SUFFIXES = ('.volumes.cache', '.surfaces.cache', '.mcnp.cache')
 
 
 class Trace:
@@ -67,6 +71,7 @@ class World:
         self.snap = []
         self.fresh = {}
         self.expected_files = set()
+        self.cache_files = set()
         self.steps = []
         self.problem = None
         self.n_fresh = 0
@@ -77,6 +82,8 @@ class World:
                 f.write(d['text'])
             self.paths.append(p)
             self.expected_files.add(os.path.basename(p))
+            for suf in CACHE_SUFFIXES:
+                self.cache_files.add('deck%d%s' % (i, suf))
             if d.get('fault_text'):
                 pf = os.path.join(self.dir, 'bad%d.imcnp' % i)
                 with open(pf, 'w', encoding='utf-8', newline='') as f:
@@ -173,7 +180,8 @@ class World:
                           {'path': os.path.basename(p)})
             elif st_.st_mtime_ns != mtime:
                 self.fail('input-file-touched', {'path': os.path.basename(p)})
-        stray = set(os.listdir(self.dir)) - self.expected_files
+        stray = set(os.listdir(self.dir)) - self.expected_files \
+            - self.cache_files
         if stray:
             self.fail('stray-files', {'files': sorted(stray)})
 
